@@ -49,6 +49,8 @@ def case_instances(ctx, case):
     libs = [LibDriver(ctx, tags, tags.TagLibrary(), 'instance', f'L{j}') for j in range(rng.randint(2, 3))]
     names = gen_names(rng, rng.randint(10, 40), HOSTILE_INSTANCE, runtime_hostile(tags), own_attribute_names(tags))
     tried = []
+    for lib_ in libs:
+        lib_.look_p = rng.choice([1.0, 1.0, 0.5, 0.2])        # a library is looked at after every operation, or only now and then
     for n in names:
         lib = rng.choice(libs)
         if rng.random() < 0.05:
@@ -64,6 +66,9 @@ def case_instances(ctx, case):
         tried.append((lib.label, n if len(n) < 40 else n[:20] + '...'))
         for other in libs:
             other.full_check(rng)
+    for lib_ in libs:
+        lib_.look_p = 1.0
+        lib_.full_check(rng)
     # short-lived libraries, one after the other (each is dropped before the next is made), filled WITHOUT being looked at and then
     # checked once: a library is judged by its own tags only, whatever lived at its address before
     for j in range(rng.randint(5, 25)):
